@@ -42,20 +42,20 @@ const (
 
 type c21node struct {
 	kind   c21kind
-	i      int       // c21Int
-	s      string    // c21Str value, c21Sym name
-	q      b6.Query  // c21Qry
-	params []string  // c21Lam
-	body   *c21node  // c21Lam
-	fn     *c21node  // c21Call
+	i      int        // c21Int
+	s      string     // c21Str value, c21Sym name
+	q      b6.Query   // c21Qry
+	params []string   // c21Lam
+	body   *c21node   // c21Lam
+	fn     *c21node   // c21Call
 	args   []*c21node // c21Call
 	piped  bool
 }
 
-func c21IntN(i int) *c21node       { return &c21node{kind: c21Int, i: i} }
-func c21StrN(s string) *c21node    { return &c21node{kind: c21Str, s: s} }
-func c21QryN(q b6.Query) *c21node  { return &c21node{kind: c21Qry, q: q} }
-func c21SymN(s string) *c21node    { return &c21node{kind: c21Sym, s: s} }
+func c21IntN(i int) *c21node      { return &c21node{kind: c21Int, i: i} }
+func c21StrN(s string) *c21node   { return &c21node{kind: c21Str, s: s} }
+func c21QryN(q b6.Query) *c21node { return &c21node{kind: c21Qry, q: q} }
+func c21SymN(s string) *c21node   { return &c21node{kind: c21Sym, s: s} }
 func c21LamN(ps []string, b *c21node) *c21node {
 	return &c21node{kind: c21Lam, params: ps, body: b}
 }
@@ -368,7 +368,7 @@ func c21errf(class, f string, a ...any) *c21err { return &c21err{class, fmt.Spri
 
 type c21builtin struct {
 	name     string
-	fixed    int  // number of non-variadic parameters
+	fixed    int // number of non-variadic parameters
 	variadic bool
 	impl     func(in *c21interp, a []c21val) (c21val, *c21err)
 	goFn     interface{} // the function registered with the VM
